@@ -732,7 +732,11 @@ def predicate(T, done, convs, fails):
                 try:
                     src = D(s)
                 except decimal.InvalidOperation:
-                    src = D(s.replace(",", "."))
+                    try:
+                        src = D(s.replace(",", "."))
+                    except decimal.InvalidOperation:
+                        fail("Decimal.convert:bad-text-accepted", "%s.convert(%r) -> %r: neither the text nor its comma-as-point reading is a decimal numeral" % (desc, s, out[1]), e, op, v, observed=jout(out))
+                        continue
                 got = out[1].as_tuple()
                 sg, coeff = half_even_quantize(src, q) if abs(src.as_tuple().exponent) < 5000 else (src.as_tuple().sign, 0)
                 if got.exponent != -q or int("".join(map(str, got.digits))) != coeff or got.sign != sg:
@@ -776,7 +780,13 @@ def run(rep, tier, rng):
     K = 600 if thorough else (160 if deep else 110)
     cases = load_corpus(PROP) + build_cases(T, rng, K)
     done, convs = run_impl(T, cases, rep, PROP)
-    predicate(T, done, convs, rep.failures)
+    oracle_error = None
+    try:
+        predicate(T, done, convs, rep.failures)
+    except Exception as ex:          # an oracle problem must not hide the correspondence result
+        import traceback
+        traceback.print_exc()
+        oracle_error = ex
     enc = Enc()
     items, kept = coq_items(done, enc)
     for k in (0, len(kept) // 3, 2 * len(kept) // 3, len(kept) - 1):
@@ -787,6 +797,8 @@ def run(rep, tier, rng):
     for i in bad[:60]:
         e, op, v, out = kept[i]
         rep.disagreements.append({"elem": e, "op": op, "value": jval(v), "implementation": jout(out)})
+    if oracle_error is not None:
+        raise oracle_error
 
 
 def replay(obj):
